@@ -328,4 +328,12 @@ pub trait Sim {
     }
 
     fn assumptions(prop: &str) -> Vec<String>;
+
+    /// Which components ran real code and which ran a stub: `(real, stub)`.
+    fn components(_prop: &str) -> (Vec<String>, Vec<String>) {
+        (
+            vec!["lightmotif (all modules reached by the workload; SSE2 / AVX2 / generic kernels per simulated host)".into()],
+            vec!["allocator (SimAlloc)".into(), "CPU probe (verif-hooks override)".into()],
+        )
+    }
 }
